@@ -37,7 +37,19 @@ def run(tier, seed):
     import vyxal.encoding as enc
     import vyxal.parse as P
     from vyxal import structure
-    from vyxal.lexer import Token, TokenType, tokenise
+    from vyxal.lexer import Token, TokenType
+
+    def tokenise(text):     # a key that makes the lexer / parser loop yields no tokens / no tree (and so a violation below)
+        try:
+            return sandbox.tokenise(text)
+        except sandbox.NonTermination:
+            return []
+
+    def parse_tokens(toks):
+        try:
+            return sandbox.parse(toks)
+        except sandbox.NonTermination:
+            return []
 
     cp = enc.codepage
 
@@ -116,7 +128,7 @@ def run(tier, seed):
     for key in elem_keys:
         if not lex_one(key, "elements"):
             continue
-        tree = P.parse(tokenise(key))
+        tree = parse_tokens(tokenise(key))
         ok = (len(tree) == 1 and type(tree[0]) is structure.GenericStatement
               and tree[0].branches[0][0] == Token(TokenType.GENERAL, key))
         if not ok:
@@ -131,7 +143,7 @@ def run(tier, seed):
             viol("key", {"key": key, "table": "modifiers"}, "modifier template not reachable from the parser's modifier lists",
                  {"key": key, "table": "modifiers"}, "in exactly one modifier list", ar)
             continue
-        tree = P.parse(tokenise(key + "+" * ar[0]))
+        tree = parse_tokens(tokenise(key + "+" * ar[0]))
         want = {1: structure.MonadicModifier, 2: structure.DyadicModifier, 3: structure.TriadicModifier}[ar[0]]
         if not (len(tree) == 1 and type(tree[0]) is want and tree[0].modifier == key):
             viol("key", {"key": key, "table": "modifiers"}, "modifier key does not parse to its modifier structure",
@@ -157,7 +169,7 @@ def run(tier, seed):
         if not lex_one(key, "structures"):
             continue
         cls, closer = P.STRUCTURE_INFORMATION[key]
-        tree = P.parse(tokenise(key + "+" + closer))
+        tree = parse_tokens(tokenise(key + "+" + closer))
         okc = len(tree) == 1 and isinstance(tree[0], structure.Structure) and type(tree[0]) is not structure.GenericStatement
         if not okc:
             viol("key", {"key": key, "table": "structures"}, "structure opener does not open a structure",
